@@ -126,11 +126,40 @@ pub fn check_reproducible(b: &Built, rec: &Recorder, c: &mut Counters, p: &Param
     calls
 }
 
+/// A hub with three spokes to anchored pairs: u - a_i (spoke weight), a_i - a_i' (pair weight). When u is visited it
+/// sees three established candidate communities at once - the decision the local-moving step is about. Spoke
+/// weights over {1,2}, pair weights over {5, +inf} (an infinite pair makes the gain towards it NaN), two layouts
+/// of the names (hub last-but-one as in a-a'-x-c-c'-u-y, hub first).
+pub fn hub_inputs() -> Vec<Built> {
+    let mut v = vec![];
+    for layout in 0..2usize {
+        // (anchor, partner) indices and the hub index
+        let (pairs, hub): ([(usize, usize); 3], usize) = if layout == 0 { ([(0, 1), (2, 6), (3, 4)], 5) } else { ([(1, 2), (3, 6), (4, 5)], 0) };
+        for sw in 0..8usize {
+            for pw in 0..8usize {
+                let mut es: Vec<(usize, usize, f64)> = vec![];
+                for (i, &(a, p)) in pairs.iter().enumerate() {
+                    es.push((a, p, if pw >> i & 1 == 1 { f64::INFINITY } else { 5.0 }));
+                }
+                for (i, &(a, _)) in pairs.iter().enumerate() {
+                    es.push((hub, a, if sw >> i & 1 == 1 { 2.0 } else { 1.0 }));
+                }
+                v.push(build_custom(US, 7, &es, &format!("hub3:{layout}:{sw}:{pw}")));
+            }
+        }
+    }
+    v
+}
+
 /// real hash orders: the same seeded call under several hash-key environments must agree (used on
 /// the inexact-weight families, where float sums over hash-ordered collections are the risk)
 pub fn check_free_reproducible(b: &Built, rec: &Recorder, c: &mut Counters, envs: u64) -> u64 {
+    check_free_reproducible_seeds(b, rec, c, envs, &[0, 1])
+}
+
+pub fn check_free_reproducible_seeds(b: &Built, rec: &Recorder, c: &mut Counters, envs: u64, seeds: &[u64]) -> u64 {
     let mut calls = 0;
-    for seed in [0u64, 1] {
+    for &seed in seeds {
         let mut outcomes: BTreeMap<Outcome, u64> = BTreeMap::new();
         for hs in 0..envs {
             if let Ok(o) = on_fresh_thread_scoped(700 + hs, || exec_louvain(b, true, None, None, Some(seed), None, &[]).outcome) {
@@ -457,7 +486,11 @@ pub fn run(tier: &str, rec: &Recorder) -> RunOutput {
     {
         // inexact weights on real hash orders (every graph of the family x 2 seeds x several hash-key environments)
         let envs = if tier == "quick" { 6 } else { 12 };
-        let mut fams = vec![fam(US, 3, "wf", &ORD_ONE), fam(DS, 3, "wf", &ORD_ONE), fam(US, 4, "wf", &ORD_ONE)];
+        let mut fams = vec![fam(US, 3, "wf", &ORD_ONE), fam(US, 4, "winf", &ORD_ONE), fam(DS, 3, if tier == "quick" { "wf2" } else { "wf" }, &ORD_ONE), fam(US, 4, if tier == "quick" { "wf2" } else { "wf" }, &ORD_ONE)];
+        if tier != "quick" {
+            fams.push(fam(US, 4, "wmax", &ORD_ONE));
+            fams.push(fam(DS, 3, "winf", &ORD_ONE));
+        }
         if tier != "quick" {
             fams.push(fam(USL, 3, "wf", &ORD_ONE));
             fams.push(fam(UM, 3, "wf", &ORD_ONE));
@@ -471,6 +504,7 @@ pub fn run(tier: &str, rec: &Recorder) -> RunOutput {
             // around 2^53, on real hash orders
             let mut med: Vec<Built> = crate::c13::medium_inputs(tier).into_iter().filter(|b| b.case.starts_with("custom:gnpulp")).collect();
             med.extend(crate::c13::big_whole_inputs(tier));
+            med.extend(crate::c13::infinite_weight_inputs(tier));
             let stride = if tier == "quick" { 3 } else { 1 };
             let med: Vec<Built> = med.into_iter().enumerate().filter(|(i, _)| i % stride == 0).map(|x| x.1).collect();
             let tot = std::sync::Mutex::new(Counters::default());
@@ -481,6 +515,30 @@ pub fn run(tier: &str, rec: &Recorder) -> RunOutput {
                 tot.lock().unwrap().merge(&c);
             });
             stats.counters.lock().unwrap().merge(&tot.into_inner().unwrap());
+        }
+        {
+            let hubs = hub_inputs();
+            let ph = Params { bound: 1, budget: if tier == "quick" { 300 } else { 5_000 }, seeds: vec![0, 1, 2], float_sites: false };
+            let tot = std::sync::Mutex::new(Counters::default());
+            par_for(hubs.len(), |i| {
+                let _ = on_fresh_thread_scoped(seed, || {
+                    let mut c = Counters::default();
+                    check_reproducible(&hubs[i], rec, &mut c, &ph);
+                    c.inc("hub_graphs");
+                    tot.lock().unwrap().merge(&c);
+                });
+            });
+            stats.counters.lock().unwrap().merge(&tot.into_inner().unwrap());
+        }
+        {
+            // sparse 5-node graphs over {1, 2, +inf}: a node with a light, a heavy and an "infinite" neighbourhood
+            // (NaN gain) needs five nodes and three weight levels
+            let mut f = fam(US, 5, "w12inf", &ORD_ONE);
+            f.min_edges = 4;
+            f.max_edges = if tier == "quick" { 4 } else { 5 };
+            // explored at the order seams (every permutation of the candidate communities at each visit), not sampled
+            let pi = Params { bound: 1, budget: if tier == "quick" { 200 } else { 5_000 }, seeds: vec![0, 1], float_sites: false };
+            for_each_graph(&f, seed, deadline, &stats, |b, c| check_reproducible(b, rec, c, &pi));
         }
         for mut f in [fam(US, 4, "u", &ORD_ONE), fam(DS, 3, "u", &ORD_ONE), fam(US, 3, "w12", &ORD_ONE)] {
             f.min_edges = 2;
@@ -544,7 +602,17 @@ pub fn replay(case: &str, rec: &Recorder) -> bool {
     if case.starts_with("custom:") {
         let label = case.split('|').next().unwrap_or("");
         let mut all = crate::c13::medium_inputs("thorough");
+        for b in hub_inputs() {
+            if b.case == label {
+                println!("{}", b.describe());
+                let mut c = Counters::default();
+                let ph = Params { bound: 1, budget: 5_000, seeds: vec![0, 1, 2], float_sites: false };
+                let _ = on_fresh_thread_scoped(seed, || check_reproducible(&b, rec, &mut c, &ph));
+                return rec.has_any();
+            }
+        }
         all.extend(crate::c13::big_whole_inputs("thorough"));
+        all.extend(crate::c13::infinite_weight_inputs("thorough"));
         for b in all {
             if b.case == label {
                 println!("{}", b.describe());
